@@ -67,7 +67,7 @@ theorem createDir_agree :
     obtain ⟨pe', hpe', hpt, _⟩ := hc.some _ pe hpe
     have hens : Mem.ensureHasParent a p = .ok () := by
       unfold Mem.ensureHasParent
-      simp [hs, FMap.contains, hpe]
+      simp [hs, hpe, hpd]
     unfold Mem.createDir Phys.createDir
     rw [hens, hb.lookup_child p hs pe' hpe' (by rw [hpt]; exact hpd)]
     rcases Option.eq_none_or_eq_some (a.find? p) with hf | ⟨e, hf⟩
@@ -159,7 +159,7 @@ theorem write_agree (bs : Bytes) :
     obtain ⟨pe', hpe', hpt, _⟩ := hc.some _ pe hpe
     have hens : Mem.ensureHasParent a p = .ok () := by
       unfold Mem.ensureHasParent
-      simp [hs, FMap.contains, hpe]
+      simp [hs, hpe, hpd]
     unfold Mem.createFile Phys.createFile
     rw [hens, hb.lookup_child p hs pe' hpe' (by rw [hpt]; exact hpd)]
     have hfresh : cursorWrite [] 0 bs = bs := by unfold cursorWrite padTo; simp
@@ -168,7 +168,7 @@ theorem write_agree (bs : Bytes) :
       simp only [hf, hfb]
       refine ⟨⟨rfl, by simp, by simp⟩, ?_⟩
       unfold memPublish Phys.writeAt0
-      simp only [FMap.find?_insert_self]
+      simp only [FMap.find?_insert_self, show fileEntryNow.ftype = FType.file from rfl, ↓reduceIte]
       by_cases hbs : bs = []
       · subst hbs
         simp only [↓reduceIte]
@@ -191,7 +191,7 @@ theorem write_agree (bs : Bytes) :
         simp only [show (FType.file = FType.dir) = False from by simp, ↓reduceIte]
         refine ⟨⟨rfl, by simp, by simp⟩, ?_⟩
         unfold memPublish Phys.writeAt0
-        simp only [FMap.find?_insert_self]
+        simp only [FMap.find?_insert_self, show fileEntryNow.ftype = FType.file from rfl, ↓reduceIte]
         by_cases hbs : bs = []
         · subst hbs
           simp only [↓reduceIte]
@@ -232,7 +232,7 @@ theorem append_agree (bs : Bytes) :
         show (FType.file = FType.dir) = False from by simp, ↓reduceIte]
       refine ⟨⟨rfl, by simp, by simp⟩, ?_⟩
       unfold memPublish Phys.appendAt
-      simp only [hf, hfb]
+      simp only [hf, hfb, hty, ↓reduceIte]
       intro k
       rw [FMap.find?_insert, FMap.find?_insert]
       split
